@@ -4,6 +4,7 @@ import GoCrypt.Props.C14
 import GoCrypt.Props.C15
 import GoCrypt.Model.Scheme
 import GoCrypt.Props.EndToEnd
+import GoCrypt.Props.FlowModel
 
 /-!
 # C01 — a freshly generated hash verifies with the password it was made from
@@ -90,4 +91,27 @@ theorem default_salt_lengths_ok :
 #print axioms GoCrypt.EndToEnd.newHash_empty_iff_des
 #print axioms GoCrypt.EndToEnd.argon2_digest_length
 
+-- the pipeline model IS the regenerated code (Props/FlowModel.lean): a value semantics of the flow IR, instantiated with the model's own
+-- unmarshal / key / encoders, evaluates the IR regenerated from the current source to exactly Scheme.newHash and Scheme.check, for all inputs
+#print axioms GoCrypt.FlowModel.flowCheck_eq_model_md5
+#print axioms GoCrypt.FlowModel.flowCheck_eq_model_sha256
+#print axioms GoCrypt.FlowModel.flowCheck_eq_model_sha512
+#print axioms GoCrypt.FlowModel.flowCheck_eq_model_sha1
+#print axioms GoCrypt.FlowModel.flowCheck_eq_model_sunmd5
+#print axioms GoCrypt.FlowModel.flowCheck_eq_model_des
+#print axioms GoCrypt.FlowModel.flowCheck_eq_model_desext
+#print axioms GoCrypt.FlowModel.flowCheck_eq_model_bcrypt
+#print axioms GoCrypt.FlowModel.flowCheck_eq_model_nthash
+#print axioms GoCrypt.FlowModel.flowCheck_eq_model_argon2
+
+#print axioms GoCrypt.FlowModel.flowNewHash_eq_model_md5
+#print axioms GoCrypt.FlowModel.flowNewHash_eq_model_des
+#print axioms GoCrypt.FlowModel.flowNewHash_eq_model_sha256
+#print axioms GoCrypt.FlowModel.flowNewHash_eq_model_sha512
+#print axioms GoCrypt.FlowModel.flowNewHash_eq_model_sha1
+#print axioms GoCrypt.FlowModel.flowNewHash_eq_model_nthash
+#print axioms GoCrypt.FlowModel.flowNewHash_eq_model_desext
+#print axioms GoCrypt.FlowModel.flowNewHash_eq_model_bcrypt
+#print axioms GoCrypt.FlowModel.flowNewHash_eq_model_argon2
+#print axioms GoCrypt.FlowModel.flowNewHash_sunmd5_partial
 end GoCrypt.C01
